@@ -1,11 +1,15 @@
 /-
-Helper lemmas about M-Geom.  Property theorems live in Props/C17.lean.
+Helper lemmas about M-Geom (umbrella).  Property theorems live in Props/C17.lean.
 -/
-import DefconModel.Geom
-import DefconModel.Spec.Geom
-
-namespace DefconModel
-namespace Geom
-
-end Geom
-end DefconModel
+import DefconModel.Lemmas.Geom.Basic
+import DefconModel.Lemmas.Geom.Hull
+import DefconModel.Lemmas.Geom.Shape
+import DefconModel.Lemmas.Geom.Move
+import DefconModel.Lemmas.Geom.Pens
+import DefconModel.Lemmas.Geom.Bounds
+import DefconModel.Lemmas.Geom.Cache
+import DefconModel.Lemmas.Geom.Transform
+import DefconModel.Lemmas.Geom.Glyph
+import DefconModel.Lemmas.Geom.World
+import DefconModel.Lemmas.Geom.Reverse
+import DefconModel.Lemmas.Geom.SetStart
